@@ -534,7 +534,7 @@ func replayGen(rep *Report, r *Result) *ReplayOutcome {
 		}
 	}()
 `, ms.Name, oo.GoName, oo.Members[0].Wrapper.Obj().Name())
-	case o.ctx.tag["method"] == "Clear" && strings.Contains(o.Name, "ensures[effect]"):
+	case o.ctx.tag["method"] == "Clear" && strings.Contains(o.Name, "keeps another selected member"):
 		// D6-style witness: select one member, clear another member of the same oneof
 		var oo *OneofSchema
 		for _, x := range ms.Oneofs {
